@@ -5,5 +5,6 @@ C20TcpCfgs == { [nsrv |-> 1, tries |-> 2, timeout |-> 1000, seed |-> 1, usevc |-
                 [nsrv |-> 1, tries |-> 2, timeout |-> 1000, seed |-> 3, usevc |-> 1, tfo |-> 1, stayopen |-> 1] }
 C20UdpCfgs == { [nsrv |-> 1, tries |-> 2, timeout |-> 1000, seed |-> 1],
                 [nsrv |-> 1, tries |-> 2, timeout |-> 1000, seed |-> 2, igntc |-> 1],
-                [nsrv |-> 2, tries |-> 2, timeout |-> 1000, seed |-> 3, stayopen |-> 1] }
+                [nsrv |-> 2, tries |-> 2, timeout |-> 1000, seed |-> 3, stayopen |-> 1],
+                [nsrv |-> 1, tries |-> 1, timeout |-> 1000, seed |-> 4] }    \* the truncated answer arrives on the only attempt
 =============================================================================
